@@ -175,6 +175,15 @@ func srvAnswersCorpus() []*CaseSpec {
 			one(b, c, op(b, A, "DEFAULT", nhg(1, 1)))
 			one(b, c, op(b, A, "DEFAULT", nh(1)))
 		})))
+		// forward references disallowed: a rejected forward reference is answered FAILED once and
+		// never again, whatever is installed later
+		out = append(out, srvCase(fmt.Sprintf("srv.answers/corpus/nofwd-rejected-then-installs/%s", B(fib)), &SrvGenCfg{Srv: SrvCfg{Fwd: false, VRFs: []string{"VRF1"}, Default: "DEFAULT"}, Pools: DefaultPools()}, mk(fib, func(b *cutBuilder, c int) {
+			one(b, c, op(b, A, "DEFAULT", v4("1.0.0.0/8", 7)))
+			one(b, c, op(b, A, "DEFAULT", v4("2.0.0.0/8", 7)))
+			one(b, c, op(b, A, "DEFAULT", nh(1)))
+			one(b, c, op(b, A, "DEFAULT", nhg(7, 1)))
+			one(b, c, op(b, A, "DEFAULT", nh(2)))
+		})))
 		// the same, dependency-reversed, in one request
 		out = append(out, srvCase(fmt.Sprintf("srv.answers/corpus/wide-cascade-one-request/%s", B(fib)), cfg, mk(fib, func(b *cutBuilder, c int) {
 			ops := []*spb.AFTOperation{}
